@@ -81,6 +81,7 @@ type formOwnedPort struct {
 func (fop formOwnedPort) close(p *Port) {
 	if fop.File {
 		verifTraceC18("close-file", p.File)
+		verifRes(verifResClose, 1)
 		p.File.Close()
 	}
 	if fop.Chan {
@@ -143,10 +144,12 @@ func (op *pipelineOp) exec(fm *Frame) Exception {
 					*input.sendError = errs.ReaderGone{}
 					close(input.sendStop)
 					input.readerGone.Store(true)
+					verifRes(verifResClose, 1)
 					input.File.Close()
 				}
 				wg.Add(i - nforms)
 				if op.bg {
+					verifRes(verifResGo, 1)
 					go func() {
 						wg.Wait()
 						fm.Evaler.addNumBgJobs(-1)
@@ -156,6 +159,7 @@ func (op *pipelineOp) exec(fm *Frame) Exception {
 				}
 				return fm.errorpf(op, "failed to create pipe: %s", e)
 			}
+			verifRes(verifResOpen, 2)
 			ch := make(chan any, pipelineChanBufferSize)
 			sendStop := make(chan struct{})
 			sendError := new(error)
@@ -199,12 +203,14 @@ func (op *pipelineOp) exec(fm *Frame) Exception {
 			f(form, fops, &excs[i])
 		} else {
 			VerifTrace(fm, "pipe.form", vpid, fm.background, 1)
+			verifRes(verifResGo, 1)
 			go f(form, fops, &excs[i])
 		}
 	}
 
 	if op.bg {
 		// Background job, wait for form termination asynchronously.
+		verifRes(verifResGo, 1)
 		go func() {
 			wg.Wait()
 			fm.Evaler.addNumBgJobs(-1)
@@ -504,6 +510,7 @@ func (op *redirOp) exec(fm *Frame, fops *[]formOwnedPort) Exception {
 		if err != nil {
 			return fm.errorpf(op, "failed to open file %s: %s", vals.ReprPlain(src), err)
 		}
+		verifRes(verifResOpen, 1)
 		*dstPort = fileRedirPort(op.mode, f)
 		dstFop.File = true
 	case vals.File:
